@@ -11,6 +11,18 @@ import sys
 import tempfile
 
 VERIF = os.path.dirname(os.path.dirname(os.path.abspath(__file__)))
+CODE = VERIF  # replaced by a frozen snapshot of the checker (so that /verif can be edited while the matrix runs)
+
+
+def snapshot():
+    global CODE
+    d = tempfile.mkdtemp(prefix="cvsnap_", dir="/tmp")
+    for name in ("cv", "witness"):
+        shutil.copytree(os.path.join(VERIF, name), os.path.join(d, name), ignore=shutil.ignore_patterns("__pycache__"))
+    for name in ("known_findings.json", "MANIFEST.json"):
+        shutil.copy(os.path.join(VERIF, name), d)
+    CODE = d
+    return d
 
 
 def run_one(d, props):
@@ -27,7 +39,7 @@ def run_one(d, props):
                 return name, {"_error": "patch does not apply"}
         env = dict(os.environ, CV_REPO=wt, CV_CACHE=wt + "_cache", CV_EVIDENCE_DIR=wt + "_ev", CV_REPLAY_DIR=wt + "_rp", CV_JOBS="6")
         for p in props:
-            r = subprocess.run([sys.executable, "-m", "cv", "check", p, "--tier", "quick"], cwd=VERIF, env=env, capture_output=True, text=True)
+            r = subprocess.run([sys.executable, "-m", "cv", "check", p, "--tier", "quick"], cwd=CODE, env=env, capture_output=True, text=True)
             rules = sorted({l.split(":")[0].strip().replace("rule ", "") for l in r.stdout.split("\n") if l.startswith("  rule ")})
             out[p] = {"rc": r.returncode, "violations": r.stdout.count("\nVIOLATION") + (1 if r.stdout.startswith("VIOLATION") else 0), "rules": rules[:6],
                       "broken": [l[:200] for l in r.stdout.split("\n") if l.startswith("ANALYSIS-BROKEN")][:1]}
@@ -54,6 +66,9 @@ def main():
     if props is None:
         man = json.load(open(os.path.join(VERIF, "MANIFEST.json")))
         props = [c["property_id"] for c in man["checks"]]
+    snap = snapshot()
+    import atexit
+    atexit.register(lambda: shutil.rmtree(snap, ignore_errors=True))
     with cf.ThreadPoolExecutor(max_workers=jobs) as ex:
         for name, out in ex.map(lambda d: run_one(d, props), dirs):
             det = [p for p, v in out.items() if isinstance(v, dict) and v.get("rc") == 1]
